@@ -548,7 +548,9 @@ def b_where(P, s, a, b, c, name):
         k = [0.0, -1.0, float("-inf"), 3.0][c % 4]
         return dict(f=lambda t: torch.where(mask, t, k), ops=[i], klass="requant")
     if form == 1:
-        other = _values(list(t.shape), t.dtype, 5000 + c, 1.0)
+        # (every other time: an alternative of ANOTHER float dtype, which promotes the result like any binary float op)
+        odt = t.dtype if c % 2 == 0 or t.dtype not in DTYPES else DTYPES[(DTYPES.index(t.dtype) + 1 + c // 2 % 2) % 3]
+        other = _values(list(t.shape), odt, 5000 + c, 1.0)
         return dict(f=lambda t: torch.where(mask, t, other), ops=[i], klass="requant")
     if form == 2:
         other = _values(list(t.shape), t.dtype, 5000 + c, 1.0)
